@@ -202,7 +202,15 @@ func stampCase(run *ev.Run, w *stampWorld, g *sip.Gen, i int, prop string, stamp
 	viaTransport := "UDP"
 	var params []sip.KV
 	rportShape := []string{"absent", "valueless", "spoofed"}[g.R.Intn(3)]
-	recvShape := []string{"absent", "absent", "spoofed"}[g.R.Intn(3)]
+	// ("spoofed-name-case": the sender wrote the parameter name with capitals. Parameter names
+	// compare case-insensitively in SIP; the proxy may take it for the received parameter and
+	// overwrite it, or leave it alone and append its own - but it must do the same thing when it
+	// stamps the request and when it addresses the response)
+	recvShape := []string{"absent", "absent", "spoofed", "absent", "spoofed", "spoofed-name-case"}[g.R.Intn(6)]
+	recvName := "received"
+	if recvShape == "spoofed-name-case" {
+		recvName = []string{"Received", "RECEIVED", "rEcEiVeD"}[g.R.Intn(3)]
+	}
 	spoofIP := w.Plan.Decoy(1 + g.R.Intn(3))
 	params = append(params, sip.KV{K: "branch", V: "z9hG4bKvf" + id, HasVal: true})
 	if g.R.Intn(2) == 0 {
@@ -214,8 +222,8 @@ func stampCase(run *ev.Run, w *stampWorld, g *sip.Gen, i int, prop string, stamp
 	case "spoofed":
 		params = append(params, sip.KV{K: "rport", V: fmt.Sprint(decoyPort), HasVal: true})
 	}
-	if recvShape == "spoofed" {
-		params = append(params, sip.KV{K: "received", V: spoofIP, HasVal: true})
+	if recvShape != "absent" {
+		params = append(params, sip.KV{K: recvName, V: spoofIP, HasVal: true})
 	}
 	if g.R.Intn(2) == 0 {
 		params = append(params, sip.KV{K: "f" + g.Alnum(1, 4)})
@@ -367,6 +375,22 @@ func stampCase(run *ev.Run, w *stampWorld, g *sip.Gen, i int, prop string, stamp
 				set("rport", fmt.Sprint(truePort))
 			}
 		}
+		if gotTop.String() != want.String() && recvShape == "spoofed-name-case" && !sv.NoRecv {
+			// the other legitimate reading: the capitalised parameter is the received parameter
+			alt := top
+			alt.Params = append([]sip.KV{}, top.Params...)
+			for j := range alt.Params {
+				if strings.EqualFold(alt.Params[j].K, "received") {
+					alt.Params[j].V = trueIP
+				}
+				if alt.Params[j].K == "rport" {
+					alt.Params[j].V, alt.Params[j].HasVal = fmt.Sprint(truePort), true
+				}
+			}
+			if gotTop.String() == alt.String() {
+				want = alt
+			}
+		}
 		if gotTop.String() != want.String() {
 			key := "sender's Via entry not stamped with the packet's true source"
 			if sv.NoRecv {
@@ -475,6 +499,13 @@ func stampCase(run *ev.Run, w *stampWorld, g *sip.Gen, i int, prop string, stamp
 		}
 		wantDesc = fmt.Sprintf("what the sender wrote: %s:%d", host, p)
 		atWant = func(o *wire.Obs) bool { return o.Proto == "udp" && o.Local == fmt.Sprintf("%s:%d", host, p) }
+		if recvShape == "spoofed-name-case" {
+			// either reading of the capitalised parameter is "what the sender wrote"
+			wantDesc += fmt.Sprintf(" or %s", spoofIP)
+			atWant = func(o *wire.Obs) bool {
+				return o.Proto == "udp" && (o.Local == fmt.Sprintf("%s:%d", host, p) || strings.HasPrefix(o.Local, spoofIP+":"))
+			}
+		}
 	}
 	var where []string
 	for _, x := range resps {
